@@ -93,6 +93,7 @@ fn run_block(lines: &[String], out: &mut Out) {
     let mut replay: Option<Vec<(usize, bool)>> = None;
     let mut maxsteps = 2000usize;
     let mut spurious_pm = 60u64;
+    let mut via_default = false;
     let mut nthreads = 0usize;
     for l in lines {
         let w: Vec<&str> = l.split_whitespace().collect();
@@ -117,6 +118,8 @@ fn run_block(lines: &[String], out: &mut Out) {
             ["seed", n] => seed = n.parse().unwrap(),
             ["maxsteps", n] => maxsteps = n.parse().unwrap(),
             ["spurious", n] => spurious_pm = n.parse().unwrap(),
+            // the channel is built through `Default` (as the exfiltrators do) instead of `Channel::new()`
+            ["setup", "default"] => via_default = true,
             ["schedule", rest @ ..] => {
                 replay = Some(rest.iter().map(|x| {
                     let sp = x.ends_with('s');
@@ -129,7 +132,7 @@ fn run_block(lines: &[String], out: &mut Out) {
     }
     while scripts.len() < nthreads { scripts.push(Vec::new()); }
     let s = sched::install(load_sites());
-    let ch = Arc::new(Channel::<Tagged>::new());
+    let ch: Arc<Channel<Tagged>> = Arc::new(if via_default { Default::default() } else { Channel::new() });
     unsafe { CHAN = Some(ch.clone()); }
     NESTED.lock().unwrap().clear();
     {
@@ -332,6 +335,34 @@ extern "C" fn stress_handler(_s: libc::c_int) {
     let seq = HSEQ.fetch_add(1, AO::SeqCst);
     LIVE.fetch_add(1, AO::SeqCst);
     ch.send(Counted { producer: 99, seq, alive: AtomicBool::new(true) });
+}
+
+/// Sequential long histories (no scheduler): fill the channel, then `n` more sends that find it full, then
+/// drain; then `n` rounds of send / recv. Prints what was received and whether anything panicked. A fault that
+/// needs tens of thousands of operations (a counter that wraps) shows here and nowhere in the scheduled runs.
+pub fn long_main() -> i32 {
+    silence_panics();
+    let n: usize = std::env::args().nth(2).and_then(|s| s.parse().ok()).unwrap_or(70000);
+    for via_default in [false, true] {
+        let ch: Channel<usize> = if via_default { Default::default() } else { Channel::new() };
+        let r = std::panic::catch_unwind(std::panic::AssertUnwindSafe(|| {
+            for i in 0..5 { ch.send(i); }
+            for i in 0..n { ch.send(1000 + i); }
+            let mut got = Vec::new();
+            while let Some(v) = ch.recv() { got.push(v); }
+            let mut ok_rounds = 0usize;
+            for i in 0..n {
+                ch.send(i);
+                if ch.recv() == Some(i) && ch.recv().is_none() { ok_rounds += 1; }
+            }
+            (got, ok_rounds)
+        }));
+        match r {
+            Ok((got, ok_rounds)) => println!("long default={} overflow-kept={:?} rounds-ok={}/{}", via_default, got, ok_rounds, n),
+            Err(_) => println!("long default={} PANIC", via_default),
+        }
+    }
+    0
 }
 
 pub fn stress_main() -> i32 {
